@@ -20,11 +20,9 @@ structure Sel where
   spec : Spec3
   /-- the complete selector matches the probe element -/
   ok : Bool
-  /-- (selector of a nested rule) it contains `&` -/
+  /-- (selector of a nested rule) it contains `&` (otherwise `:is(parent)` + descendant combinator
+      is put in front of it); either way the complete selector is what `ok` and `nestSels` describe -/
   amp : Bool := false
-  /-- (selector of a nested rule without `&`) the selector as written, read as a top-level
-      selector, matches the probe element -/
-  bare : Bool := false
   deriving Repr, DecidableEq
 
 /-- one declaration of the probe property -/
